@@ -5,6 +5,7 @@ import (
 	"strconv"
 	"strings"
 
+	"github.com/trajectoryjp/spatial_id_go/v4/common"
 	"github.com/trajectoryjp/spatial_id_go/v4/common/consts"
 	"github.com/trajectoryjp/spatial_id_go/v4/common/errors"
 )
@@ -242,10 +243,10 @@ func (s ExtendedSpatialID) Higher(hDiff, vDiff int64) *ExtendedSpatialID {
 	var vZoom = s.vZoom - vDiff
 
 	var hDiv = int64(math.Pow(2, float64(hDiff)))
-	var vDiv = int64(math.Pow(2, float64(vDiff)))
 	var x = s.x / hDiv
 	var y = s.y / hDiv
-	var z = s.z / vDiv
+	// 高さIDは負値を取り得るため、床関数(floor)となる算術シフトで計算する
+	var z = common.CalculateArithmeticShift(s.z, -vDiff)
 
 	return &ExtendedSpatialID{
 		hZoom: hZoom,
